@@ -129,3 +129,53 @@ Proof.
   unfold unlines. cbn [map]. rewrite concat_nil_cons. rewrite lines_of_line by (apply negb_true_iff; exact Hl).
   simpl. f_equal. apply IH. exact Hls.
 Qed.
+
+(* ---- nothing but the names can bring a line feed into the text: with names free of line feeds the printed text determines its lines,
+   i.e. the rendering of the structural listing can be read off the output ---- *)
+Lemma has_nl_app a b : has_nl (a +++ b) = has_nl a || has_nl b.
+Proof. induction a as [|c a IH]; [reflexivity|]. simpl. rewrite IH, orb_assoc. reflexivity. Qed.
+
+Fixpoint uint_no_nl (d : Decimal.uint) : has_nl (NilEmpty.string_of_uint d) = false.
+Proof. destruct d; simpl; try reflexivity; apply uint_no_nl. Qed.
+Lemma dec_no_nl n : has_nl (dec n) = false.
+Proof.
+  unfold dec, NilZero.string_of_uint. destruct (Nat.to_uint n) eqn:E; try reflexivity; rewrite <- E; apply uint_no_nl.
+Qed.
+
+Section Recover.
+Variables (cs : list scourse) (ps : list spart) (rooms : option (list string)).
+Hypothesis pnames_ok : forall p, In p ps -> has_nl (sp_name p) = false.
+Hypothesis cnames_ok : forall c, In c cs -> has_nl (so_name c) = false /\ forallb (fun h => negb (has_nl h)) (so_hidden c) = true.
+Hypothesis rooms_ok : match rooms with Some rs => forallb (fun s => negb (has_nl s)) rs = true | None => True end.
+
+Lemma pname_no_nl p : has_nl (pname ps p) = false.
+Proof.
+  unfold pname. destruct (Nat.lt_ge_cases p (List.length ps)) as [H|H]; [apply pnames_ok, nth_In, H|]. rewrite nth_overflow by exact H. reflexivity.
+Qed.
+Lemma nth_course_ok ci : has_nl (so_name (nth ci cs dflt_course)) = false /\ forallb (fun h => negb (has_nl h)) (so_hidden (nth ci cs dflt_course)) = true.
+Proof.
+  destruct (Nat.lt_ge_cases ci (List.length cs)) as [H|H]; [apply cnames_ok, nth_In, H|]. rewrite nth_overflow by exact H. split; reflexivity.
+Qed.
+
+Lemma block_lines_no_nl a ci : forallb (fun l => negb (has_nl l)) (block_lines cs ps rooms a ci) = true.
+Proof.
+  unfold block_lines. destruct (nth_course_ok ci) as [Hn Hh]. rewrite !forallb_app. apply andb_true_intro; split; [|apply andb_true_intro; split; [|apply andb_true_intro; split]].
+  - cbn [forallb]. unfold head_line, count_line. rewrite !has_nl_app, Hn, dec_no_nl. reflexivity.
+  - unfold rooms_lines. destruct rooms as [rs|]; [|reflexivity]. cbn [forallb]. rewrite !has_nl_app.
+    assert (Hr : has_nl (nth ci rs "") = false).
+    { destruct (Nat.lt_ge_cases ci (List.length rs)) as [H|H]; [|rewrite nth_overflow by exact H; reflexivity].
+      rewrite forallb_forall in rooms_ok. apply negb_true_iff. apply rooms_ok, nth_In, H. }
+    rewrite Hr. reflexivity.
+  - apply forallb_forall. intros l Hl. apply in_map_iff in Hl. destruct Hl as (p & <- & _). unfold person_line.
+    rewrite !has_nl_app, pname_no_nl. destruct (memz _ _); reflexivity.
+  - unfold hidden_lines. destruct (so_hidden (nth ci cs dflt_course)) as [|h t] eqn:E; [reflexivity|].
+    cbn [forallb]. apply andb_true_intro. split; [reflexivity|]. apply forallb_forall. intros l Hl. apply in_map_iff in Hl.
+    destruct Hl as (x & <- & Hx). rewrite has_nl_app. rewrite forallb_forall in Hh. specialize (Hh x Hx). apply negb_true_iff in Hh. rewrite Hh. reflexivity.
+Qed.
+
+Theorem print_stage_lines a : lines_of (print_stage cs ps rooms a) "" = title :: listing_lines cs ps rooms a.
+Proof.
+  unfold print_stage. apply lines_of_unlines. cbn [forallb]. apply andb_true_intro. split; [reflexivity|].
+  unfold listing_lines. induction (seq 0 (List.length cs)) as [|ci t IH]; [reflexivity|]. cbn [flat_map]. rewrite forallb_app, block_lines_no_nl, IH. reflexivity.
+Qed.
+End Recover.
